@@ -621,3 +621,48 @@ func TestC06TwoCreators(t *testing.T) {
 		_ = both
 	})
 }
+
+// TestC06Bystander: a protected user connected from the same address as an unprotected user who is kicked and banned
+// stays connected and served - through the idle checks that follow (the production keep-alive loop runs in this world).
+func TestC06Bystander(t *testing.T) {
+	ev := evid.New("C06", "TestC06Bystander")
+	defer ev.Flush()
+	rapid.Check(t, func(rt *rapid.T) {
+		option := rapid.IntRange(0, 2).Draw(rt, "option")
+		wait := rapid.SampledFrom([]time.Duration{2 * time.Second, 11 * time.Second, 25 * time.Second, 6 * time.Minute}).Draw(rt, "wait")
+		vipFirst := rapid.Bool().Draw(rt, "vipConnectsFirst")
+		prot := hlref.AccessOf(hlref.PrivCannotBeDiscon, hlref.PrivReadChat)
+		opt := hlsim.Options{Agreement: "a", Keepalive: true, Accounts: []hlsim.AccountSpec{acct("admin", "Admin", "adminpw", hlref.AccessOf(hlref.PrivDisconUser)), acct("plain", "Plain", "ppw", hlref.AccessOf(hlref.PrivReadChat)), {Login: "vip", Name: "Vip", Password: "vpw", Access: prot}}}
+		inWorld(rt, opt, func(rt *rapid.T, w *hlsim.World) {
+			admin := loginAs(rt, w, "10.6.4.1:1", "admin", "adminpw", "admin")
+			var vip, victim *hlsim.Conn
+			vid := 3
+			if vipFirst {
+				vip = loginAs(rt, w, "10.6.4.9:1001", "vip", "vpw", "vip")
+				victim = loginAs(rt, w, "10.6.4.9:1002", "plain", "ppw", "victim")
+			} else {
+				victim = loginAs(rt, w, "10.6.4.9:1002", "plain", "ppw", "victim")
+				vip = loginAs(rt, w, "10.6.4.9:1001", "vip", "vpw", "vip")
+				vid = 2
+			}
+			fs := []hlref.Field{fld(hlref.FUserID, hlref.BE16(vid))}
+			if option != 0 {
+				fs = append(fs, fld(hlref.FOptions, hlref.BE16(option)))
+			}
+			if !okReply(admin.Request(hlref.TranDisconnectUser, fs...)) {
+				rt.Fatalf("harness: disconnect request against the unprotected user refused")
+			}
+			settle(wait)
+			if !victim.EOF() && wait > time.Second {
+				rt.Fatalf("harness: the kicked user is still connected after %s", wait)
+			}
+			if vip.EOF() {
+				rt.Fatalf("the protected user, connected from the same address as a user who was kicked (option %d), lost its connection within %s", option, wait)
+			}
+			if r := vip.Request(hlref.TranKeepAlive); !okReply(r) {
+				rt.Fatalf("the protected user, connected from the same address as a user who was kicked (option %d), is no longer served after %s", option, wait)
+			}
+		})
+		ev.Case(evid.Hash("bystander", option, wait, vipFirst), option != 0, "bystander")
+	})
+}
